@@ -134,7 +134,29 @@ func (vc *VC) loopHeader(fr *frame, n *Node, phis []*ssa.Phi, entryVals map[*ssa
 		n.st.wm = wm
 	}
 	if mods.all {
+		// ghost call flags keep the value they had before the loop (calls inside the loop body are then not seen
+		// after it: sound for must-call obligations, which need the flag to be true)
+		ghosts := map[string]string{}
+		for k, v := range n.st.mem {
+			if strings.HasPrefix(k, "called") {
+				ghosts[k] = v
+			}
+		}
 		n.st.mem = map[string]string{}
+		for k, v := range ghosts {
+			n.st.mem[k] = v
+		}
+		for b := range l.blocks {
+			for _, in := range b.Instrs {
+				if nx, ok := in.(*ssa.Next); ok && !nx.IsString {
+					if rg, ok := nx.Iter.(*ssa.Range); ok {
+						if g := vc.rangeGhosts[rg]; g != nil {
+							n.st.mem[g.name] = vc.decl(g.name+".h", e.mapMemSorts[g.name])
+						}
+					}
+				}
+			}
+		}
 		n.st.epoch = vc.newEpoch("havoc", nil, nil)
 		n.st.epoch.wm = n.st.wm
 		vc.enc.notes[fmt.Sprintf("loop %d of %s calls functions with unknown effects: all memories havoced at the header", l.ordinal, fr.fn.Name())] = true
@@ -191,6 +213,9 @@ func (vc *VC) loopHeader(fr *frame, n *Node, phis []*ssa.Phi, entryVals map[*ssa
 	if lc != nil {
 		for i := range lc.MustCalls {
 			name := mustFlag(l, i)
+			if e.mapMemSorts == nil {
+				e.mapMemSorts = map[string]string{}
+			}
 			e.mapMemSorts[name] = "Bool"
 			n.st.mem[name] = "false"
 		}
@@ -204,6 +229,23 @@ func mustFlag(l *LoopInfo, i int) string { return fmt.Sprintf("called.%d.%d", l.
 // mustCallMark: a call of callee happens at node n; every enclosing loop with a mustcall clause for it records
 // whether the arguments satisfy the clause's condition.
 func (vc *VC) mustCallMark(fr *frame, n *Node, x *ssa.Call, callee string, args []Val) {
+	if fr.fc != nil {
+		for i, mc := range fr.fc.MustCalls {
+			if mc.Callee != callee {
+				continue
+			}
+			mc.Hits++
+			ctx := &SpecCtx{vc: vc, lookup: vc.nodeLookup(fr, n, x, args), st: n.st, oldSt: fr.entrySt, oldLookup: func(name string) (Val, bool) { return vc.paramLookup(fr, name) }, pkg: fr.fn.Pkg.Pkg, fnName: fr.fn.Name(), fr: fr}
+			t, err := ctx.EvalBool(mc.ArgCond)
+			if err != nil {
+				vc.errorf("mustcall %s %q: %v", callee, mc.Text, err)
+				continue
+			}
+			name := fmt.Sprintf("calledfn.%d", i)
+			cur := vc.memAtByName(n.st, name)
+			n.st.mem[name] = vc.def(name, "Bool", or(cur, t))
+		}
+	}
 	for l := fr.innermostLoop(n.blk); l != nil; l = l.parent {
 		if l.contract == nil {
 			continue
@@ -600,8 +642,8 @@ func (vc *VC) allocLocal(fr *frame, n *Node, b *ssa.BasicBlock, st *State, name 
 		return Val{T: n.env[best].T, Typ: elem, Cell: true}, true
 	}
 	if _, isStruct := elem.Underlying().(*types.Struct); isStruct {
-		// a struct kept in memory: the name stands for the cell; field selections load from the selected state
-		return Val{T: n.env[best].T, Typ: best.Type()}, true
+		// a struct kept in memory: its current content (all fields), loaded from the state the clause selects
+		return Val{T: n.env[best].T, Typ: elem, Cell: true}, true
 	}
 	return Val{}, false
 }
@@ -871,6 +913,29 @@ func (vc *VC) execInstr(fr *frame, n *Node, in ssa.Instruction) bool {
 		if fr == vc.top && fr.fc != nil {
 			// `atreturn [label:] expr`: an obligation at every return statement where the clause's variables are in
 			// scope (a return inside a loop sees the loop's locals); $resN are the values being returned
+			for i, mc := range fr.fc.MustCalls {
+				base := vc.nodeLookup(fr, n, nil, nil)
+				lookup := func(name string) (Val, bool) {
+					if strings.HasPrefix(name, "$res") {
+						var k int
+						if _, err := fmt.Sscanf(name[4:], "%d", &k); err == nil && k >= 0 && k < len(rs) {
+							return rs[k], true
+						}
+						return Val{}, false
+					}
+					return base(name)
+				}
+				ctx := &SpecCtx{vc: vc, lookup: lookup, st: n.st, oldSt: fr.entrySt, oldLookup: func(name string) (Val, bool) { return vc.paramLookup(fr, name) }, pkg: fr.fn.Pkg.Pkg, fnName: fr.fn.Name(), fr: fr}
+				w, err := ctx.EvalBool(mc.When)
+				if err != nil {
+					mc.Skipped++
+					vc.enc.notes[fmt.Sprintf("mustcall %s does not apply to the return at %s (%v)", mc.Callee, vc.pos(x.Pos()), err)] = true
+					continue
+				}
+				mc.Applied++
+				flag := vc.memAtByName(n.st, fmt.Sprintf("calledfn.%d", i))
+				vc.oblige("mustcall", fmt.Sprintf("mustcall%s.b%d", labelOr(mc.Label, i), n.blk.Index), "mustcall "+mc.Callee+" "+mc.Text, vc.pos(x.Pos()), n.reach, implies(w, flag))
+			}
 			for k, ac := range fr.fc.AtReturns {
 				base := vc.nodeLookup(fr, n, nil, nil)
 				lookup := func(name string) (Val, bool) {
@@ -1235,14 +1300,11 @@ func (vc *VC) loopMayDelete(fr *frame, n *Node, mt *types.Map) string {
 			}
 			c := ci.Common()
 			if bi, ok := c.Value.(*ssa.Builtin); ok {
-				if bi.Name() == "clear" {
-					return "the loop calls clear"
+				if bi.Name() == "delete" || bi.Name() == "clear" {
+					// (an obligation "the deletion hits another map" was tried and withdrawn: it alarmed on
+					// TrimLowFrequencyEdges, which legitimately deletes the current key of the ranged map; DESIGN 20.5)
+					return "the loop calls " + bi.Name()
 				}
-				if bi.Name() == "delete" && fr != vc.top {
-					return "the loop calls delete (inlined frame)"
-				}
-				// delete in the function under verification: allowed, each such call carries the obligation that it
-				// removes from a map other than the ranged one (rangedelete)
 				continue
 			}
 			callee := c.StaticCallee()
@@ -1345,7 +1407,19 @@ func (vc *VC) havocMods(n *Node, ms *ModSet) {
 		st.wm = wm
 	}
 	if ms.all {
-		// every memory, including those discovered later (new epoch)
+		// every memory, including those discovered later (new epoch); ghost call flags are not program memory and
+		// keep their value
+		ghosts := map[string]string{}
+		for k, v := range st.mem {
+			if strings.HasPrefix(k, "called") {
+				ghosts[k] = v
+			}
+		}
+		defer func() {
+			for k, v := range ghosts {
+				st.mem[k] = v
+			}
+		}()
 		st.mem = map[string]string{}
 		st.epoch = vc.newEpoch("havoc", nil, nil)
 		st.epoch.wm = st.wm
